@@ -27,7 +27,7 @@ ASSUMPTIONS = ["values are logged by repr (callables/classes/modules by type nam
 EXHAUSTIVE = {"quick": False, "thorough": False}
 FLOOR = {"quick": 20000, "thorough": 200000}
 MONITORS = False
-SIZES = {"quick": dict(d3_frac=0.12, d4_frac=0.25, rand=6000, other_frac=0.12),
+SIZES = {"quick": dict(d3_frac=0.07, d4_frac=0.15, rand=6000, other_frac=0.12),
          "thorough": dict(d3_frac=1.0, d4_frac=1.0, rand=150000, other_frac=1.0)}
 
 
